@@ -121,6 +121,8 @@ pub fn character_string(input: Input<'_>) -> ParserResult<'_, ASN1Type> {
                 value(CharacterStringType::UTF8String, tag(UTF8_STRING)),
                 value(CharacterStringType::NumericString, tag(NUMERIC_STRING)),
                 value(CharacterStringType::VisibleString, tag(VISIBLE_STRING)),
+                // X.680 41.1: ISO646String is a synonym of VisibleString
+                value(CharacterStringType::VisibleString, tag(ISO646_STRING)),
                 value(CharacterStringType::TeletexString, tag(TELETEX_STRING)),
                 value(CharacterStringType::TeletexString, tag(T61_STRING)),
                 value(CharacterStringType::VideotexString, tag(VIDEOTEX_STRING)),
